@@ -1,5 +1,211 @@
-From JV Require Import Lib.Base Lib.C15Val Model.C15Links Proofs.C15Proofs.
+(* C15 — a linked argument always equals the function of its sources. Property theorems only: each is closed by
+   `exact` of a lemma proved in Proofs/C15*.v and followed by Print Assumptions; Examples show that the hypotheses
+   are satisfiable by a non-trivial parser and input (Proofs/C15Witness.v: two sources, a compute function, a
+   required target, the environment, a config that supplies a value for the target, an option).
 
-Theorem C15_placeholder : forall k v m, alookup k (aset k v m) = Some v.
-Proof. exact alookup_aset_same. Qed.
-Print Assumptions C15_placeholder.
+   Vocabulary (Model/C15Links.v): [build ds ls] = the parser after add_argument for the declarations [ds] and the
+   link_arguments calls [ls] in order (a call that raises ValueError leaves the parser unchanged); [parse] = defaults
+   -> environment -> argv / --cfg / parse_object -> apply_parsing_links -> validate; [finish] = the last two steps from
+   ANY configuration [pre] (whatever channel produced it; this is the statement that also covers parsers with
+   class-typed arguments, whose collection phase is not modelled); [strip] = strip_link_target_keys (dump / save);
+   [holds fn a cfg] = "if all sources of link a are present in cfg then compute_fn succeeds on their FINAL values and
+   the target holds exactly the result" (for a target dest.init_args.x: or the class at dest takes no x);
+   [fn : nat -> list val -> option val] interprets the compute functions and is universally quantified. *)
+From JV Require Import Lib.Base Lib.C15Val Model.C15Links
+  Proofs.C15Proofs Proofs.C15DumpProofs Proofs.C15ItemsProofs Proofs.C15FixedProofs Proofs.C15Witness.
+
+(* ---------------------------------------------------------------- 1. the invariant *)
+(* Every successful parse of every parser, whatever the input: each link holds in the result. The guard excludes
+   only link sets with key-PREFIX overlaps that _initial_input_checks fails to reject (finding
+   link-key-prefix-overlap; C15_fixed_link_invariant below has no guard). *)
+Theorem C15_link_invariant :
+  forall (fn : nat -> list val -> option val) (classes : list cls) (ds : list decl) (ls : list link) (x : input) (cfg : val),
+    let p := fst (build ds ls) in
+    overlap_free (map al_link (p_links p)) = true ->
+    parse fn classes p x = Ok cfg ->
+    forall a, In a (p_links p) -> holds fn a cfg.
+Proof. exact link_invariant_parse. Qed.
+Print Assumptions C15_link_invariant.
+
+(* The same from the entry of apply_parsing_links, for an arbitrary collected configuration: "whatever channel set
+   the sources and whatever value was supplied for the target itself". *)
+Theorem C15_link_invariant_any_channel :
+  forall (fn : nat -> list val -> option val) (classes : list cls) (ds : list decl) (ls : list link) (pre cfg : val),
+    let p := fst (build ds ls) in
+    overlap_free (map al_link (p_links p)) = true ->
+    finish fn classes p pre = Ok cfg ->
+    forall a, In a (p_links p) -> holds fn a cfg.
+Proof. exact link_invariant_finish. Qed.
+Print Assumptions C15_link_invariant_any_channel.
+
+(* Targets that are parameters of the items of a list of classes (cs : List[Base], target cs.init_args.q): when the
+   sources are present, compute_fn succeeds and EVERY item of the list at the target's dest either does not take the
+   parameter or holds exactly the result (items_ok, Proofs/C15ItemsProofs.v). *)
+Theorem C15_link_invariant_list_items :
+  forall (fn : nat -> list val -> option val) (classes : list cls) (ds : list decl) (ls : list link) (pre cfg : val),
+    let p := fst (build ds ls) in
+    overlap_free (map al_link (p_links p)) = true ->
+    finish fn classes p pre = Ok cfg ->
+    forall a, In a (p_links p) -> holds_items fn a cfg.
+Proof. exact link_items_finish. Qed.
+Print Assumptions C15_link_invariant_list_items.
+
+Example C15_list_items_hypotheses_satisfiable :
+  overlap_free (map al_link (p_links (fst (build li_decls li_links)))) = true /\
+  finish wfn li_classes (fst (build li_decls li_links)) (VMap [(sU, VInt 7); (sCS, VList [li_item 2; li_item 5])])
+  = Ok (VMap [(sU, VInt 7); (sCS, VList [li_item 7; li_item 7])]).
+Proof. split; [exact li_overlap_free|exact li_two_items]. Qed.
+
+Example C15_invariant_hypotheses_satisfiable :
+  snd (build ex_decls ex_links) = [0%N] /\
+  overlap_free (map al_link (p_links (fst (build ex_decls ex_links)))) = true /\
+  parse wfn [] (fst (build ex_decls ex_links)) ex_input = Ok ex_cfg.
+Proof. split; [exact ex_accepted|split; [exact ex_overlap_free|exact ex_parse]]. Qed.
+
+(* ---------------------------------------------------------------- 2. no chains *)
+(* What _initial_input_checks establishes for the accepted links, in application order: a later target is no
+   earlier target and no earlier source, and no later source is an earlier target. *)
+Theorem C15_no_chain :
+  forall (ds : list decl) (ls : list link), chain_free (map al_link (p_links (fst (build ds ls)))).
+Proof. exact no_chain_build. Qed.
+Print Assumptions C15_no_chain.
+
+(* Why that matters (the step of the induction behind C15_link_invariant): applying link b changes neither the
+   target nor any source of a link a whose keys do not overlap b's target. *)
+Theorem C15_links_commute :
+  forall (fn : nat -> list val -> option val) (a b : alink) (cfg cfg' : val),
+    wf_alink b ->
+    (forall s, In s (al_tgt a :: al_src a) -> comparable (al_tgt b) s = false) ->
+    apply1 fn cfg b = Ok cfg' ->
+    forall s, In s (al_tgt a :: al_src a) -> get cfg' s = get cfg s.
+Proof. exact links_commute. Qed.
+Print Assumptions C15_links_commute.
+
+Example C15_chain_calls_are_rejected :
+  snd (build ex_decls (ex_links ++ [{| l_src := [[sT]]; l_tgt := [sB]; l_fn := None |};
+                                    {| l_src := [[sB]]; l_tgt := [sA]; l_fn := None |};
+                                    {| l_src := [[sA]]; l_tgt := [sT]; l_fn := None |}])) = [0; 1; 1; 1]%N.
+Proof. exact ex_chain_rejected. Qed.
+
+(* ---------------------------------------------------------------- 3. the target is not required *)
+Theorem C15_target_not_required :
+  forall (ds : list decl) (ls : list link) (a : alink),
+    In a (p_links (fst (build ds ls))) -> ~ In (al_tgt a) (p_req (fst (build ds ls))).
+Proof. exact target_not_required_build. Qed.
+Print Assumptions C15_target_not_required.
+
+Example C15_required_target_becomes_optional :
+  p_req (init_parser ex_decls) = [[sT]] /\ p_req (fst (build ex_decls ex_links)) = [].
+Proof. split; [exact ex_required_before|exact ex_required_after]. Qed.
+
+(* ---------------------------------------------------------------- 4. the option of a plain target is rejected *)
+Theorem C15_target_option_rejected :
+  forall (fn : nat -> list val -> option val) (classes : list cls) (ds : list decl) (ls : list link)
+         (env : list (key * val)) (argv : list item) (a : alink) (v : val),
+    let p := fst (build ds ls) in
+    In a (p_links p) -> al_kind a = TgtPlain -> In (Opt (al_tgt a) v) argv ->
+    exists e, parse fn classes p (InArgs env argv) = Err e.
+Proof. exact target_option_rejected_parse. Qed.
+Print Assumptions C15_target_option_rejected.
+
+Example C15_target_option_rejected_as_linked :
+  parse wfn [] (fst (build ex_decls ex_links)) (InArgs [] [Opt [sA] (VInt 3); Opt [sT] (VInt 5)]) = Err ELinked.
+Proof. exact ex_option_rejected. Qed.
+
+(* ---------------------------------------------------------------- 5. dumps *)
+(* No target key is present in the stripped configuration (any configuration, not only parse results) ... *)
+Theorem C15_target_absent_from_dump :
+  forall (ds : list decl) (ls : list link) (cfg : val) (a : alink),
+    let p := fst (build ds ls) in
+    In a (p_links p) -> al_tgt a <> [] -> get (strip p cfg) (al_tgt a) = None.
+Proof. exact target_absent_from_dump_build. Qed.
+Print Assumptions C15_target_absent_from_dump.
+
+(* ... and every key that overlaps no target (in particular every such source) is dumped unchanged. *)
+Theorem C15_dump_changes_only_targets :
+  forall (ds : list decl) (ls : list link) (cfg : val) (k : key),
+    let p := fst (build ds ls) in
+    (forall a, In a (p_links p) -> comparable (al_tgt a) k = false) -> get (strip p cfg) k = get cfg k.
+Proof. exact dump_frame_build. Qed.
+Print Assumptions C15_dump_changes_only_targets.
+
+(* Re-parsing reconstructs the target: two successful parses of the same parser (e.g. the original input and the
+   dump) in which the sources of a link have the same values give the same target value. That the dump -> parse round
+   trip preserves the source values themselves is property C01's subject and is exercised by the correspondence. *)
+Theorem C15_reparse_restores_target :
+  forall (fn : nat -> list val -> option val) (classes : list cls) (ds : list decl) (ls : list link)
+         (x x2 : input) (cfg cfg2 : val),
+    let p := fst (build ds ls) in
+    overlap_free (map al_link (p_links p)) = true ->
+    parse fn classes p x = Ok cfg -> parse fn classes p x2 = Ok cfg2 ->
+    forall a args, In a (p_links p) ->
+      mapM (get cfg) (al_src a) = Some args -> mapM (get cfg2) (al_src a) = Some args ->
+      tgt_same a cfg cfg2.
+Proof. exact reparse_restores_target_build. Qed.
+Print Assumptions C15_reparse_restores_target.
+
+Example C15_dump_and_reparse :
+  strip (fst (build ex_decls ex_links)) ex_cfg = VMap [(sA, VInt 5); (sB, VInt 7)] /\
+  parse wfn [] (fst (build ex_decls ex_links)) (InArgs [] [Cfg (strip (fst (build ex_decls ex_links)) ex_cfg)]) = Ok ex_cfg.
+Proof. split; [exact ex_dump|exact ex_reparse]. Qed.
+
+(* ---------------------------------------------------------------- 6. findings on the unrepaired code *)
+(* link-key-prefix-overlap: the guard of C15_link_invariant cannot be dropped for [build]. *)
+Theorem C15_link_key_prefix_overlap_refuted :
+  exists ds ls x cfg a,
+    parse wfn [] (fst (build ds ls)) x = Ok cfg /\ In a (p_links (fst (build ds ls))) /\ ~ holds wfn a cfg.
+Proof. exact overlap_refuted. Qed.
+Print Assumptions C15_link_key_prefix_overlap_refuted.
+
+(* list-item-target-in-dump: C15_target_absent_from_dump speaks about keys of the configuration; a target that is a
+   parameter of the ITEMS of a list of classes survives in every item of the dump. *)
+Theorem C15_list_item_target_in_dump_refuted :
+  exists classes ds ls pre cfg a dest child items i v,
+    finish wfn classes (fst (build ds ls)) pre = Ok cfg /\
+    In a (p_links (fst (build ds ls))) /\ al_kind a = TgtInit dest child /\
+    get (strip (fst (build ds ls)) cfg) dest = Some (VList items) /\ In i items /\ get i child = Some v.
+Proof. exact list_item_refuted. Qed.
+Print Assumptions C15_list_item_target_in_dump_refuted.
+
+(* ---------------------------------------------------------------- 7. the repaired link_arguments
+   (fixes/C15-link-key-prefix-overlap.patch; Model build_fixed): no guard is left. *)
+Theorem C15_fixed_link_invariant :
+  forall (fn : nat -> list val -> option val) (classes : list cls) (ds : list decl) (ls : list link) (x : input) (cfg : val),
+    let p := fst (build_fixed ds ls) in
+    parse fn classes p x = Ok cfg -> forall a, In a (p_links p) -> holds fn a cfg.
+Proof. exact fixed_link_invariant_parse. Qed.
+Print Assumptions C15_fixed_link_invariant.
+
+Theorem C15_fixed_link_invariant_any_channel :
+  forall (fn : nat -> list val -> option val) (classes : list cls) (ds : list decl) (ls : list link) (pre cfg : val),
+    let p := fst (build_fixed ds ls) in
+    finish fn classes p pre = Ok cfg -> forall a, In a (p_links p) -> holds fn a cfg.
+Proof. exact fixed_link_invariant_finish. Qed.
+Print Assumptions C15_fixed_link_invariant_any_channel.
+
+Theorem C15_fixed_link_invariant_list_items :
+  forall (fn : nat -> list val -> option val) (classes : list cls) (ds : list decl) (ls : list link) (pre cfg : val),
+    let p := fst (build_fixed ds ls) in
+    finish fn classes p pre = Ok cfg -> forall a, In a (p_links p) -> holds_items fn a cfg.
+Proof. exact fixed_link_items_finish. Qed.
+Print Assumptions C15_fixed_link_invariant_list_items.
+
+Example C15_fixed_rejects_the_overlap_and_keeps_the_rest :
+  snd (build_fixed ov_decls ov_links) = [0; 1]%N /\ build_fixed ex_decls ex_links = build ex_decls ex_links.
+Proof. split; [exact ov_fixed_rejects|exact ex_fixed_same]. Qed.
+
+(* The repaired strip_link_target_keys (fixes/C15-list-item-target-in-dump.patch; Model strip_fixed): no item of a
+   dumped list of classes carries the target parameter — the statement C15_list_item_target_in_dump_refuted denies
+   for the unrepaired [strip]. *)
+Theorem C15_fixed_dump_list_items_clean :
+  forall (ds : list decl) (ls : list link) (cfg : val) (a : alink) (d c : key),
+    let p := fst (build_fixed ds ls) in
+    In a (p_links p) -> al_kind a = TgtInit d c ->
+    forall items, get (strip_fixed p cfg) d = Some (VList items) -> forall i, In i items -> get i c = None.
+Proof. exact fixed_dump_items_clean_build. Qed.
+Print Assumptions C15_fixed_dump_list_items_clean.
+
+Example C15_fixed_dump_of_the_finding_input :
+  strip_fixed (fst (build li_decls li_links)) li_cfg
+  = VMap [(sU, VInt 7); (sCS, VList [VMap [(class_path, VStr sBase); (init_args, VMap [(sP, VInt 1)])]])].
+Proof. exact li_fixed_dump. Qed.
